@@ -7,7 +7,7 @@
    [flds], [mths], [prms] are the children of an optional parent; [union eqb ka kb] = ka followed
    by the keys of kb that are not in ka; [row3 a b] = [shared first name; A's name; B's name];
    [first_some a b] = a's comment if it has one, else b's. *)
-From FB Require Import C09.Model C09.Theory C09.Theory2 C09.Theory3 C09.Theory4 C09.Theory5 C09.Theory6 C09.Theory7 C09.Theory8 C09.Theory9 C09.Theory10 C09.Theory11 C09.Theory12 C09.Theory13.
+From FB Require Import C09.Model C09.Theory C09.Theory2 C09.Theory3 C09.Theory4 C09.Theory5 C09.Theory6 C09.Theory7 C09.Theory8 C09.Theory9 C09.Theory10 C09.Theory11 C09.Theory12 C09.Theory13 C09.ModelNames C09.Theory14 C09.Theory15.
 From FB Require C08.Model.
 From FB Require C03.Theory6.
 
@@ -221,6 +221,25 @@ Theorem C09_merge_rejects_empty_name : forall A B,
 Proof. exact merge_rejects_empty_name. Qed.
 Print Assumptions C09_merge_rejects_empty_name.
 
+(* (round 7) The same without the restriction to the second column: an empty name Some [] in ANY cell of any class /
+   field / method / parameter row of either input ([has_empty_cell], coq/C09/ModelNames.v; rows of any length) makes
+   merge fail when keys are pairwise distinct.  With C09_merge_rows_ok (a successful merge contains no empty name) the
+   invariant "no empty name" of Names is enforced by merge on its inputs and on its result, whatever the caller did.
+   The second-column predicate of C09_merge_rejects_empty_name is a special case (second conjunct). *)
+Theorem C09_merge_rejects_empty_cell : forall A B,
+  keys_unique A = true -> keys_unique B = true ->
+  has_empty_cell A || has_empty_cell B = true -> merge A B = Err.
+Proof. exact merge_rejects_empty_cell. Qed.
+Print Assumptions C09_merge_rejects_empty_cell.
+
+Theorem C09_bad_row_is_empty_cell : forall l, bad_row l = true -> ebad_row l = true.
+Proof. exact bad_row_ebad. Qed.
+Print Assumptions C09_bad_row_is_empty_cell.
+
+Theorem C09_empty_cell_example : empty_cell_example.
+Proof. exact empty_cell_example_holds. Qed.
+Print Assumptions C09_empty_cell_example.
+
 Theorem C09_wf_keys_unique : forall M, wf M = true -> keys_unique M = true.
 Proof. exact wf_keys_unique. Qed.
 Print Assumptions C09_wf_keys_unique.
@@ -228,6 +247,56 @@ Print Assumptions C09_wf_keys_unique.
 Theorem C09_empty_name_example : empty_name_example.
 Proof. exact empty_name_example_holds. Qed.
 Print Assumptions C09_empty_name_example.
+
+(* 8. (round 7) The row / header API of quill/src/tree/mod.rs that the inputs of merge go through, modelled in
+      coq/C09/ModelNames.v and compared call by call in the `names-api` correspondence stream.
+      [change_name_at l id from to] = Namespace::<N>::new(id)? followed by Names::change_name on the row l
+      (N = length l), returning the old name and the row afterwards.  It succeeds EXACTLY when id is a namespace
+      other than the first and `from` is the current name of that cell; then the returned name is `from`, and the
+      row afterwards has the same length, `to` in cell id and every other cell unchanged (which determines it).
+      In particular the first cell - the key of the node - cannot be edited. *)
+Theorem C09_change_name_spec : forall (l : names) (id : nat) (from to old : option str) (l' : names),
+  change_name_at l id from to = Ok (old, l') <->
+  (0 < id < length l)%nat /\ nth_name l id = from /\ old = from /\ length l' = length l
+  /\ nth_name l' id = to /\ (forall j, j <> id -> nth_name l' j = nth_name l j).
+Proof. exact change_name_spec. Qed.
+Print Assumptions C09_change_name_spec.
+
+(* 8'. The tie to merge.  Names::change_name does not check `to` for emptiness, so a caller can put the empty name
+       Some [] into the second column of a class row of A (what the harness' empty-name stream does).  For EVERY
+       such edit (any class position, any `from` the API accepts) of a set with pairwise distinct keys: the class
+       keys are unchanged (the node is still stored under its own key - the list model applies), keys stay
+       unique, and merge refuses the edited set on either side. *)
+Theorem C09_change_name_empty_refused : forall A B cs1 c cs2 from old l',
+  ms_classes A = cs1 ++ c :: cs2 -> keys_unique A = true -> keys_unique B = true ->
+  change_name_at (c_names c) 1 from (Some []) = Ok (old, l') ->
+  let A' := with_class_row A cs1 c cs2 l' in
+  map class_key (ms_classes A') = map class_key (ms_classes A)
+  /\ keys_unique A' = true
+  /\ merge A' B = Err /\ merge B A' = Err.
+Proof. exact change_name_empty_refused. Qed.
+Print Assumptions C09_change_name_empty_refused.
+
+(* 8''. The constructors and the header edit.  Names::from (empty string -> absent name) always produces a row the
+        checking constructor Names::try_from accepts, cell by cell as stated; Names::try_from accepts exactly the rows
+        without an empty name and returns them unchanged; Namespaces::try_from accepts exactly the headers without an
+        empty namespace name; Namespaces::change_names (Mappings::rename_namespaces) succeeds exactly when `from` is
+        the current header and then the header is `to`, unchecked. *)
+Theorem C09_names_constructors_spec :
+  (forall l, names_from (names_of_strs l) = Ok (names_of_strs l)
+             /\ length (names_of_strs l) = length l
+             /\ (forall i, nth_name (names_of_strs l) i = match nth i l [] with [] => None | s => Some s end))
+  /\ (forall l l', names_from l = Ok l' <-> l' = l /\ names_ok (length l) l = true)
+  /\ (forall l l', namespaces_from l = Ok l' <-> l' = l /\ ~ In [] l)
+  /\ (forall ns from to r, change_names ns from to = Ok r <-> ns = from /\ r = to).
+Proof. exact constructors_spec. Qed.
+Print Assumptions C09_names_constructors_spec.
+
+(* non-vacuity of 8: accepted and refused edits (first column, index = N, wrong `from`), both constructors on an
+   empty string, the unchecked header rename, and a pair that merges until the edit puts the empty name in *)
+Theorem C09_names_api_example : names_api_example.
+Proof. exact names_api_example_holds. Qed.
+Print Assumptions C09_names_api_example.
 
 (* 5. The checks of merge.rs on descriptors, parameter indices (merge_equal) and on the first
       names of classes, fields and methods (merge_names) can never fail: what they compare is
